@@ -64,22 +64,24 @@ def ev2x (t : String) (a b d e : Int) : String :=
   | some eps =>
     let s := pow2 e
     let A : M2 Rat := ⟨(a : Rat) * s, (b : Rat) * s, (b : Rat) * s, (d : Rat) * s⟩
-    -- the only square root taken is that of q; insist that it is exact
-    let p := Gen.ev2_p A.a00 A.a01 A.a10 A.a11
-    let q := Gen.ev2_q A.a00 A.a01 A.a10 A.a11 p (Gen.ev2_p2 A.a00 A.a01 A.a10 A.a11 p)
+    -- the closed form runs on the preconditioned matrix; the only square root taken is that of q: insist on exactness
+    let m := preScale2 A
+    let S := sdiv2 A m
+    let p := Gen.ev2_p S.a00 S.a01 S.a10 S.a11
+    let q := Gen.ev2_q S.a00 S.a01 S.a10 S.a11 p (Gen.ev2_p2 S.a00 S.a01 S.a10 S.a11 p)
     match ratSqrt? q with
     | none => "bad-op"
     | some _ =>
       let sqrt : Rat → Rat := fun x => (ratSqrt? x).getD 0
-      match eigenValues2d sqrt A with
-      | .error .math => "ERR:Math"
-      | .ok (l0, l1) =>
-        let vecs := match eigenVectorChoice2d eps A l0 l1 with
+      match eigenValues2x2 sqrt A, eigenValues2d sqrt S with
+      | .ok (l0, l1), .ok (s0, s1) =>
+        let vecs := match eigenVectorChoice2d eps S s0 s1 with
           | none => "[[1,0],[0,1]]"
           | some (c0, c1) => "[" ++ showV2 c0 ++ "," ++ showV2 c1 ++ "]"
         match dyList? [l0, l1] with
         | none => "bad-op"
         | some vs => "vals=" ++ vs ++ " vvals=" ++ vs ++ " vecs=" ++ vecs
+      | _, _ => "ERR:Math"
 
 def ev3x (t : String) (v : List Int) (e : Int) : String :=
   match epsOf t, v with
